@@ -164,6 +164,49 @@ TABLE = {
             "reject unknown ids and track known ones; every waiting loop of a cancellable/forcible instruction must read "
             "the flag (directly or via its helper); Pause/Hold.cancel must run the inverse command.",
             "Decides the reject-or-apply structure; tick-exact timing of the effect is not decided."),
+    "C01": ("state-carriage completeness, self-lookup rule, origin-token (alias) propagation and validate-before-commit dominance",
+            "Every runtime attribute the interpreter layer writes on AST nodes must be carried by extract_state/apply_state of "
+            "its declaring class; lookups of a node id that may be the receiver's own must pass include_self=True; symbolic "
+            "origin tokens show whether MethodManager._program is the program the installed interpreter runs at each exit; all "
+            "commits in merge_method must be dominated by the validation that rejects edits of started lines. These are "
+            "necessary conditions for 'continues as if loaded from the start' that hold for every edit history.",
+            "Equality of an edited run with a fresh run is out of static reach. R01b and R01c are violated today (the hot-swap "
+            "visitor never finds the root; merge installs a state-less program): open known findings, not repairable without "
+            "breaking baseline tests that depend on the re-execution."),
+    "C02": ("dispatch-table exhaustiveness + dominance checks in the child iteration and the generic visit",
+            "Every node class the parser can emit has a visit_<Class> on PInterpreter's MRO, every interpreter command and "
+            "engine command name has a handler/class; child_index is incremented once, after the child's generator; completed "
+            "nodes are never dispatched; started is set only after the threshold wait; trailing blank/comment lines are never passed.",
+            "Exactly-once and ordering for arbitrary nestings and timings are runtime properties and not decided."),
+    "C03": ("constant-table agreement (duration units/multipliers) and data-flow orientation of the threshold comparison",
+            "The unit list of the duration regexes, the units and folded multipliers of get_duration_end and the groups used by "
+            "Wait/Pause/Hold must agree; the threshold comparison must be '<'(scope clock, node.threshold) with the clock "
+            "selected by the Block tag and the provider's (main, block) tuple order consistent end to end.",
+            "The timing clauses (no later than the first tick, one tick interval) relate two runtime clocks and are not decided; "
+            "an unrecognised rewrite of the anchors yields exit 2, never a violation."),
+    "C04": ("dominance / post-dominance rules on the Watch and Alarm visitors and on the block-end sites",
+            "The body invocation is reachable only through the activation loop's exit; activation is written only under forced "
+            "or a true condition and never for a cancelled node; a cancelled Watch leaves the wait loop before trying to "
+            "activate; Watch completion and the Alarm re-arm sequence post-dominate the body; every block_ended = True is "
+            "followed by _abort_block_interrupts on all paths.",
+            "Tick-exact interleavings of condition, cancel, force and End block are not decided."),
+    "C05": ("sibling agreement of the two End-block visitors + lock acquire/release pairing on the CFG of visit_BlockNode",
+            "End block and End blocks must perform the same per-block effect set and write the Block tag; the lock-acquired "
+            "branch must announce the block before the body; every normal exit releases the lock; completion after the body is "
+            "reachable only once block_ended; the lock is taken only when all locked blocks are ancestors.",
+            "The single-chain invariant over all reachable interpreter states and which block `End block` picks are data-dependent and not decided."),
+    "C14": ("lookup-domain agreement rule for interrupts + effect check of inject_node + guard check of the interpreter tick",
+            "Every node handed to _register_interrupt must be findable where the live-edit merge looks interrupts up (the "
+            "program tree) or the merge must consult the injected-node registry; inject_node may not write method progress; "
+            "injected interrupts advance only through PInterpreter.tick under the started/not-paused/holding/stopping guard.",
+            "Exactly-once execution of arbitrary snippets is not decided. R14a is violated today (injected nodes are not in the "
+            "tree and are dropped by a merge): open known finding."),
+    "C41": ("dominance of the invocation by the undefined/recursion tests, ownership of the macro table, validation raises for started macros",
+            "The macro body invocation must be dominated by the undefined-macro raise and by the recursion test on "
+            "macro_calling_macro's result, lie on no cycle, and be followed by the completion counter; ProgramNode.macros is "
+            "written only by _register_macro (unconditional overwrite) and looked up by name at call time; the live-edit "
+            "validation raises for a started macro that is missing, retyped or modified.",
+            "Completeness of the recursion detector over arbitrary macro call graphs is out of static reach (it follows only the first Call macro child)."),
 }
 
 DESIGN_NA = {
